@@ -149,6 +149,27 @@ def run(tier, replay=None):
                     break
                 if len(samples) < 3:
                     samples.append({"ops": [x[:60] for x in mixed[:8]], "own_digest": ref[-1]})
+    # a shadow instance of the other chip family (and one of the same family) repeats every note / program / controller call of the
+    # instance right before it: anything remembered per argument outside the instance (a memo keyed by the tone, a "last patch" cache) shows here
+    for emu in (EMUS if not quick else rng.sample(EMUS, 3)):
+        own = ["0 new 44100 %d 1" % emu, "0 bank " + bank] + own_ops(rng, 0) + ["0 digest"]
+        ref = run_ops(own)
+        for fam in (1, 0):
+            mixed = own[:2] + ["1 new 44100 %d 1" % emu, "1 bank " + bank, "1 chiptype %d" % fam]
+            for o in own[2:]:
+                if o.split()[1] in ("on", "pc", "cc", "off"):
+                    mixed.append("1 " + o[2:])
+                mixed.append(o)
+            res = run_ops(mixed)
+            cases += 1
+            mine = [r for o, r in zip(mixed, res) if o.startswith("0 ")]
+            if any(r.startswith("fault=") for r in res):
+                fail("implementation fault: %s" % next(r for r in res if r.startswith("fault=")), mixed); break
+            if mine != ref:
+                k = next(i for i, (a, b) in enumerate(zip(mine, ref)) if a != b)
+                fail("instance with emulator %d gives %s instead of %s at its call %r when a shadow instance (chip family %d) makes the same calls just before it" % (
+                    emu, mine[k][:60], ref[k][:60], own[k][:40], fam), mixed)
+                break
     # concurrent rendering: every instance on its own thread
     thr_cases = 0
     for rep in range(2 if quick else 8):
